@@ -34,6 +34,8 @@ def deleg_case(rng, gpg: bool):
         signed = gen.delegating_md(role if role in ("root", "key_mgr") else "key_mgr", own)
     else:
         signed = gen.delegating_md(rng.choice(["root", "key_mgr"]), own)
+    if isinstance(signed, dict) and "metadata_spec_version" in signed and rng.random() < 0.3:
+        signed["metadata_spec_version"] = rng.choice(["0.1.0", "1.0.0", "2.0.0", "17.3.9", "x", ""])       # any string; acceptance does not depend on it
     u = gen.envelope(signed)
     # signers: chosen around the named role's threshold, or the keys of another role / of the untrusted metadata itself
     target = dels.get(role)
